@@ -1,0 +1,329 @@
+//go:build verif
+
+package nebula
+
+// Verification hooks for the `outside` / `relayctl` correspondence engines (build tag verif only).
+// Offers, under the verif tag, what control_tester.go offers under e2e_testing: an Interface wired
+// exactly like Main does it, but on a caller-supplied udp.Conn / overlay.Device and without any
+// goroutine, so that a harness can drive readOutsidePackets / the handshake manager synchronously.
+// No behaviour of its own: every method forwards to the unexported function it names.
+
+import (
+	"context"
+	"fmt"
+	"log/slog"
+	"net/netip"
+	"sort"
+	"strings"
+
+	"github.com/slackhq/nebula/config"
+	"github.com/slackhq/nebula/firewall"
+	"github.com/slackhq/nebula/header"
+	"github.com/slackhq/nebula/overlay"
+	"github.com/slackhq/nebula/overlay/batch"
+	"github.com/slackhq/nebula/overlay/tio"
+	"github.com/slackhq/nebula/udp"
+)
+
+type VerifNode struct {
+	F      *Interface
+	C      *config.C
+	rxc    *rxContext
+	cancel context.CancelFunc
+
+	sb        *batch.SendBatch
+	fwPacket  *firewall.ParsedPacket
+	rejectBuf []byte
+	nb        []byte
+}
+
+// VerifNewNode follows Main (main.go) step by step for the non-configTest path, with the udp
+// listener and the tun device supplied by the caller and none of the background goroutines started.
+func VerifNewNode(c *config.C, l *slog.Logger, conn udp.Conn, dev overlay.Device) (*VerifNode, error) {
+	ctx, cancel := context.WithCancel(context.Background())
+	pki, err := NewPKIFromConfig(l, c)
+	if err != nil {
+		cancel()
+		return nil, err
+	}
+	fw, err := NewFirewallFromConfig(l, pki.getCertState(), c)
+	if err != nil {
+		cancel()
+		return nil, err
+	}
+	hostMap := NewHostMapFromConfig(l, c)
+	punchy := NewPunchyFromConfig(l, c, conn)
+	connManager := newConnectionManagerFromConfig(l, c, hostMap, punchy)
+	lightHouse, err := NewLightHouseFromConfig(ctx, l, c, pki.getCertState(), conn, punchy)
+	if err != nil {
+		cancel()
+		return nil, err
+	}
+	messageMetrics := newMessageMetricsOnlyRecvError()
+	handshakeConfig := HandshakeConfig{
+		tryInterval:    c.GetDuration("handshakes.try_interval", DefaultHandshakeTryInterval),
+		retries:        int64(c.GetInt("handshakes.retries", DefaultHandshakeRetries)),
+		triggerBuffer:  c.GetInt("handshakes.trigger_buffer", DefaultHandshakeTriggerBuffer),
+		messageMetrics: messageMetrics,
+	}
+	handshakeManager := NewHandshakeManager(l, hostMap, lightHouse, conn, handshakeConfig)
+	lightHouse.handshakeTrigger = handshakeManager.trigger
+
+	ifConfig := &InterfaceConfig{
+		HostMap:            hostMap,
+		Inside:             dev,
+		Outside:            conn,
+		pki:                pki,
+		Firewall:           fw,
+		HandshakeManager:   handshakeManager,
+		connectionManager:  connManager,
+		lightHouse:         lightHouse,
+		tryPromoteEvery:    c.GetUint32("counters.try_promote", defaultPromoteEvery),
+		reQueryEvery:       c.GetUint32("counters.requery_every_packets", defaultReQueryEvery),
+		reQueryWait:        c.GetDuration("timers.requery_wait_duration", defaultReQueryWait),
+		DropLocalBroadcast: c.GetBool("tun.drop_local_broadcast", false),
+		DropMulticast:      c.GetBool("tun.drop_multicast", false),
+		routines:           1,
+		MessageMetrics:     messageMetrics,
+		version:            "verif",
+		relayManager:       NewRelayManager(ctx, l, hostMap, c),
+		punchy:             punchy,
+		l:                  l,
+	}
+	ifce, err := NewInterface(ctx, ifConfig)
+	if err != nil {
+		cancel()
+		return nil, err
+	}
+	ifce.writers = []udp.Conn{conn}
+	lightHouse.ifce = ifce
+	ifce.RegisterConfigChangeCallbacks(c)
+	ifce.reloadDisconnectInvalid(c)
+	ifce.reloadSendRecvError(c)
+	ifce.reloadAcceptRecvError(c)
+	handshakeManager.f = ifce
+	if err := ifce.activate(); err != nil {
+		cancel()
+		return nil, err
+	}
+	n := &VerifNode{F: ifce, C: c, cancel: cancel}
+	n.rxc = newRxContext(ifce, 0)
+	n.sb = batch.NewSendBatch(conn, batch.SendBatchCap, batch.SendBatchCap*(udp.MTU+32))
+	n.fwPacket = &firewall.ParsedPacket{}
+	n.rejectBuf = make([]byte, mtu)
+	n.nb = make([]byte, 12, 12)
+	return n, nil
+}
+
+func (n *VerifNode) Stop() { n.cancel() }
+
+// Inject is one iteration of listenOut: readOutsidePackets on one datagram followed by the flusher.
+func (n *VerifNode) Inject(from netip.AddrPort, packet []byte) {
+	n.F.readOutsidePackets(ViaSender{UdpAddr: from}, packet, n.rxc)
+	if err := n.F.batchers[0].Flush(); err != nil {
+		n.F.l.Error("Failed to flush tun coalescer", "error", err)
+	}
+	clear(n.rxc.hostmapCache)
+}
+
+// SendTun is one iteration of listenIn: consumeInsidePacket on one IP packet followed by the flush.
+func (n *VerifNode) SendTun(packet []byte) {
+	n.F.consumeInsidePacket(tio.Packet{Bytes: packet}, n.fwPacket, n.nb, n.sb, n.rejectBuf, 0, nil)
+	n.F.flushSendBatch(n.sb, 0)
+}
+
+func (n *VerifNode) SendMessageToVpnAddr(t header.MessageType, st header.MessageSubType, vpnAddr netip.Addr, p []byte) {
+	n.F.SendMessageToVpnAddr(t, st, vpnAddr, p, make([]byte, 12, 12), make([]byte, mtu))
+}
+
+// SendMessageToIndex sends on the hostinfo registered under the local index (nil-safe).
+func (n *VerifNode) SendMessageToIndex(t header.MessageType, st header.MessageSubType, localIndex uint32, p []byte) bool {
+	hi := n.F.hostMap.QueryIndex(localIndex)
+	if hi == nil {
+		return false
+	}
+	n.F.SendMessageToHostInfo(t, st, hi, p, make([]byte, 12, 12), make([]byte, mtu))
+	return true
+}
+
+func (n *VerifNode) SendCloseTunnel(localIndex uint32) bool {
+	hi := n.F.hostMap.QueryIndex(localIndex)
+	if hi == nil {
+		return false
+	}
+	n.F.sendCloseTunnel(hi)
+	return true
+}
+
+// StartHandshake is HandshakeManager.StartHandshake followed by the timer-driven handleOutbound.
+func (n *VerifNode) StartHandshake(vpnAddr netip.Addr) {
+	n.F.handshakeManager.StartHandshake(vpnAddr, nil)
+	n.F.handshakeManager.handleOutbound(vpnAddr, false)
+}
+
+func (n *VerifNode) HandshakeOutbound(vpnAddr netip.Addr) {
+	n.F.handshakeManager.handleOutbound(vpnAddr, false)
+}
+
+// InjectLightHouseAddr / InjectRelays: same as control_tester.go.
+func (n *VerifNode) InjectLightHouseAddr(vpnIp netip.Addr, toAddr netip.AddrPort) {
+	lh := n.F.lightHouse
+	lh.Lock()
+	remoteList := lh.unlockedGetRemoteList([]netip.Addr{vpnIp})
+	remoteList.Lock()
+	defer remoteList.Unlock()
+	lh.Unlock()
+	if toAddr.Addr().Is4() {
+		remoteList.unlockedPrependV4(vpnIp, netAddrToProtoV4AddrPort(toAddr.Addr(), toAddr.Port()))
+	} else {
+		remoteList.unlockedPrependV6(vpnIp, netAddrToProtoV6AddrPort(toAddr.Addr(), toAddr.Port()))
+	}
+}
+
+func (n *VerifNode) InjectRelays(vpnIp netip.Addr, relayVpnIps []netip.Addr) {
+	lh := n.F.lightHouse
+	lh.Lock()
+	remoteList := lh.unlockedGetRemoteList([]netip.Addr{vpnIp})
+	remoteList.Lock()
+	defer remoteList.Unlock()
+	lh.Unlock()
+	remoteList.unlockedSetRelay(vpnIp, relayVpnIps)
+}
+
+func (n *VerifNode) Reload(yaml string) error { return n.C.ReloadConfigString(yaml) }
+
+func (n *VerifNode) VpnAddrs() []netip.Addr { return n.F.myVpnAddrs }
+
+// ---- observation (read-only)
+
+type VerifRelayRec struct {
+	Type, State             int
+	LocalIndex, RemoteIndex uint32
+	PeerAddr                netip.Addr
+}
+
+type VerifHostInfo struct {
+	LocalIndex, RemoteIndex uint32
+	VpnAddrs                []netip.Addr
+	Remote                  netip.AddrPort
+	In                      bool
+	Primary                 bool
+	WindowCurrent           uint64
+	SendCounter             uint64
+	Relays                  []netip.Addr    // relayState.relays: relays used to reach this host
+	RelayFor                []VerifRelayRec // relayState.relayForByIdx, sorted by local index
+	RelayForByAddrOK        bool            // relayForByAddr and relayForByIdx hold the same records
+}
+
+type VerifState struct {
+	Hosts         []VerifHostInfo   // every hostinfo in hm.Indexes, sorted by local index
+	HostsMap      map[string]uint32 // hm.Hosts: vpn addr -> local index of the primary
+	RelaysMap     map[uint32]uint32 // hm.Relays: relay index -> local index of the owning hostinfo
+	RemoteIndexes map[uint32]uint32
+	Pending       []string // handshake manager: pending vpn addrs
+	LhCache       []string // lighthouse addrMap: "vpn=addr,addr|relays"
+	RelayUsed     []uint32
+	AmRelay       bool
+	UseRelays     bool
+}
+
+func verifHostInfo(hm *HostMap, hi *HostInfo) VerifHostInfo {
+	v := VerifHostInfo{
+		LocalIndex:  hi.localIndexId,
+		RemoteIndex: hi.remoteIndexId,
+		VpnAddrs:    append([]netip.Addr{}, hi.vpnAddrs...),
+		Remote:      hi.GetRemote(),
+		In:          hi.in.Load(),
+	}
+	if len(hi.vpnAddrs) > 0 {
+		v.Primary = hm.Hosts[hi.vpnAddrs[0]] == hi
+	}
+	if cs := hi.ConnectionState; cs != nil {
+		if cs.window != nil {
+			v.WindowCurrent = cs.window.current
+		}
+		v.SendCounter = cs.messageCounter.Load()
+	}
+	v.Relays = hi.relayState.CopyRelayIps()
+	hi.relayState.RLock()
+	v.RelayForByAddrOK = len(hi.relayState.relayForByAddr) == len(hi.relayState.relayForByIdx)
+	for idx, r := range hi.relayState.relayForByIdx {
+		v.RelayFor = append(v.RelayFor, VerifRelayRec{r.Type, r.State, r.LocalIndex, r.RemoteIndex, r.PeerAddr})
+		if r2, ok := hi.relayState.relayForByAddr[r.PeerAddr]; !ok || *r2 != *r || idx != r.LocalIndex {
+			v.RelayForByAddrOK = false
+		}
+	}
+	hi.relayState.RUnlock()
+	sort.Slice(v.RelayFor, func(i, j int) bool { return v.RelayFor[i].LocalIndex < v.RelayFor[j].LocalIndex })
+	return v
+}
+
+func (n *VerifNode) State() VerifState {
+	f := n.F
+	hm := f.hostMap
+	s := VerifState{HostsMap: map[string]uint32{}, RelaysMap: map[uint32]uint32{}, RemoteIndexes: map[uint32]uint32{}}
+	hm.RLock()
+	for _, hi := range hm.Indexes {
+		s.Hosts = append(s.Hosts, verifHostInfo(hm, hi))
+	}
+	for a, hi := range hm.Hosts {
+		s.HostsMap[a.String()] = hi.localIndexId
+	}
+	for i, hi := range hm.Relays {
+		s.RelaysMap[i] = hi.localIndexId
+	}
+	for i, hi := range hm.RemoteIndexes {
+		s.RemoteIndexes[i] = hi.localIndexId
+	}
+	hm.RUnlock()
+	sort.Slice(s.Hosts, func(i, j int) bool { return s.Hosts[i].LocalIndex < s.Hosts[j].LocalIndex })
+
+	f.handshakeManager.RLock()
+	for a := range f.handshakeManager.vpnIps {
+		s.Pending = append(s.Pending, a.String())
+	}
+	f.handshakeManager.RUnlock()
+	sort.Strings(s.Pending)
+
+	lh := f.lightHouse
+	lh.RLock()
+	for a, rl := range lh.addrMap {
+		addrs := rl.CopyAddrs(nil)
+		parts := make([]string, 0, len(addrs))
+		for _, ap := range addrs {
+			parts = append(parts, ap.String())
+		}
+		rl.RLock()
+		rel := fmt.Sprint(rl.relays)
+		rl.RUnlock()
+		s.LhCache = append(s.LhCache, a.String()+"="+strings.Join(parts, ",")+"|"+rel)
+	}
+	lh.RUnlock()
+	sort.Strings(s.LhCache)
+
+	cm := f.connectionManager
+	cm.relayUsedLock.RLock()
+	for i := range cm.relayUsed {
+		s.RelayUsed = append(s.RelayUsed, i)
+	}
+	cm.relayUsedLock.RUnlock()
+	sort.Slice(s.RelayUsed, func(i, j int) bool { return s.RelayUsed[i] < s.RelayUsed[j] })
+	s.AmRelay = f.relayManager.GetAmRelay()
+	s.UseRelays = f.relayManager.GetUseRelays()
+	return s
+}
+
+// ClearIn resets the traffic-in marks (what the connection manager tick does) so that the next
+// observation shows whether a packet set them.
+func (n *VerifNode) ClearIn() {
+	hm := n.F.hostMap
+	hm.RLock()
+	for _, hi := range hm.Indexes {
+		hi.in.Store(false)
+	}
+	hm.RUnlock()
+	cm := n.F.connectionManager
+	cm.relayUsedLock.Lock()
+	clear(cm.relayUsed)
+	cm.relayUsedLock.Unlock()
+}
